@@ -199,6 +199,10 @@ func (w *World) oracleConservation(pfx string, atLeastOnce bool) {
 				s.Violate(key("aborted-delivered"), "message %s was aborted by its producer but was handed downstream (%d transactions)", m.ID, len(txs))
 			}
 			if !m.aborted && m.bodyErr == "" && w.crashes == 0 && pfx == "C01" {
+				if w.hang != "" {
+					s.Violate(key("producer-stuck"), "the hand-off of message %s to the queue never returned", m.ID)
+					continue
+				}
 				simrt.Harnessf("message %s neither acked nor aborted", m.ID)
 			}
 			continue
